@@ -174,3 +174,12 @@ Theorem C04_rotate_extrude_outward : forall (profile : list (pt2 R)) (degrees : 
   complete (enumerate profile) -> Forall (fun p => (xmin <= x2 p)%R) profile -> (0 < xmin)%R -> (Poly.area2 profile < 0)%R ->
   (vol6 (fst ph) (snd ph) < 0)%R.
 Proof. exact rotate_extrude_outward. Qed.
+
+(* ---- the prisms the thread module builds for hexagonal heads and nuts (and every inscribed / circumscribed prism):
+        the outline is a circle of another radius, so these are cylinders -- closed (exact form) and outward with no
+        hypothesis on the caps. Together with C04_every_cylinder (rods, viewer edges) this covers every linear extrusion
+        the library itself performs. ---- *)
+Theorem C04_polygon_prisms : forall (n : Z) (r h : R) pts ph, r <> 0%R ->
+  (inscribed_polygon n r = Some pts \/ circumscribed_polygon n r = Some pts) -> linear_extrude pts h = Some ph ->
+  (forall u v, (mcnt u v (snd ph) <= 1)%nat /\ mcnt u v (snd ph) = mcnt v u (snd ph)) /\ ((0 < h)%R -> (vol6 (fst ph) (snd ph) < 0)%R).
+Proof. exact polygon_prism_unconditional. Qed.
